@@ -87,6 +87,7 @@ def run(ctx, canary=False):
             calls.append({"k": "datavector"})
             calls.append({"k": "saveload"})
             calls.append({"k": "synth"})
+            calls.append({"k": "reparam"})
         return calls
 
     def run_mq(name, full, depth):
@@ -149,7 +150,7 @@ def run(ctx, canary=False):
     for e in emits[:budget]:
         replay_history(ctx, cat[e["sid"] - 1], e, rng, paths)
     ctx.extra["path_coverage"] = paths
-    for need in ("cache", "ve", "pair", "krondot", "datavector", "saveload", "synth"):
+    for need in ("cache", "ve", "pair", "krondot", "datavector", "saveload", "synth", "reparam"):
         if not paths.get(need):
             raise MachineryError("query path never exercised: " + need)
     for e in emits:
@@ -172,6 +173,7 @@ def replay_history(ctx, s, e, rng, paths):
     ctx.case((s["name"], tuple(dom_order), tuple(order), total, e["cached0"], json.dumps(info["calls"], sort_keys=True)),
              nontrivial=any(len(h["call"].get("seq", [])) >= 2 or h["call"]["k"] != "project" for h in e["hist"]))
     Z = e["Z"]
+    state = {"Z": Z, "total": total, "pset": 1}
     aged = rng.random() < 0.4
     info["earlier_life_with_other_parameters"] = aged
     # the same joint written with potentials that each span far more than the range of exp() (+c x_a on one clique, -c x_a on a
@@ -219,12 +221,12 @@ def replay_history(ctx, s, e, rng, paths):
         if tuple(f.domain.attrs) != tuple(seq):
             bad.append("%s: axes %s, requested %s" % (label, f.domain.attrs, tuple(seq)))
             return
-        want = np.array(ints, dtype=float) * total / Z
+        want = np.array(ints, dtype=float) * state["total"] / state["Z"]
         got = np.asarray(f.values, dtype=float).reshape(-1)
-        if got.shape != want.shape or not np.all(np.isfinite(got)) or not np.allclose(got, want, rtol=1e-9 if not spread else 1e-7, atol=1e-12 * total):
+        if got.shape != want.shape or not np.all(np.isfinite(got)) or not np.allclose(got, want, rtol=1e-9 if not spread else 1e-7, atol=1e-12 * state["total"]):
             bad.append("%s = %s, joint marginal %s" % (label, got.tolist(), want.tolist()))
-        elif abs(got.sum() - total) > 1e-9 * total:
-            bad.append("%s sums to %r, total %r" % (label, got.sum(), total))
+        elif abs(got.sum() - state["total"]) > 1e-9 * state["total"]:
+            bad.append("%s sums to %r, total %r" % (label, got.sum(), state["total"]))
 
     for h in e["hist"]:
         c, ans = h["call"], h["ans"]
@@ -251,18 +253,34 @@ def replay_history(ctx, s, e, rng, paths):
                 out = m.krondot(mats)
                 rows = {a: mats[i].shape[0] for i, a in enumerate(m.domain.attrs)}
                 got = to_order(np.asarray(out).reshape([rows[a] for a in m.domain.attrs]), list(m.domain.attrs), V)
-                want = np.array(ans["a"], dtype=float) * total / Z
-                if got.shape != want.shape or not np.allclose(got, want, rtol=1e-9, atol=1e-12 * total):
+                want = np.array(ans["a"], dtype=float) * state["total"] / state["Z"]
+                if got.shape != want.shape or not np.allclose(got, want, rtol=1e-9, atol=1e-12 * state["total"]):
                     bad.append("krondot(%s) = %s, linear image of the joint %s" % (c["kinds"], got.tolist(), want.tolist()))
             elif c["k"] == "datavector":
                 paths["datavector"] = paths.get("datavector", 0) + 1
                 dv = m.datavector(flatten=False)
                 got = to_order(dv, list(m.domain.attrs), V)
-                want = np.array(ans["a"], dtype=float) * total / Z
-                if tuple(dv.shape) != tuple(m.domain.shape) or not np.allclose(got, want, rtol=1e-9, atol=1e-12 * total):
+                want = np.array(ans["a"], dtype=float) * state["total"] / state["Z"]
+                if tuple(dv.shape) != tuple(m.domain.shape) or not np.allclose(got, want, rtol=1e-9, atol=1e-12 * state["total"]):
                     bad.append("datavector = %s, joint %s" % (got.tolist(), want.tolist()))
                 if not np.array_equal(m.datavector(), dv.reshape(-1)):
                     bad.append("datavector(flatten=True) != flatten of datavector(False)")
+            elif c["k"] == "reparam":
+                # ModelQuery.tla's Reparam: the other parameter set (weights reversed) and another total, installed the way the
+                # estimators do it; cached marginals, if any, are re-derived by the caller
+                paths["reparam"] = paths.get("reparam", 0) + 1
+                state["pset"] = 3 - state["pset"]
+                s_now = s if state["pset"] == 1 else dict(s, pots=[dict(p_, w=list(reversed(p_["w"]))) for p_ in s["pots"]])
+                state["total"] = total if state["pset"] == 1 else total * 2.0 + 0.5
+                state["Z"] = h["Z"]
+                np_ = potentials(m, s_now, set(), [0.2 * k for k in range(len(s["pots"]))], 1.0, spread)
+                m.total = state["total"]
+                if hasattr(m, "marginals"):
+                    mu = m.belief_propagation(np_)
+                    m.potentials = np_
+                    m.marginals = mu
+                else:
+                    m.potentials = np_
             elif c["k"] == "synth":
                 paths["synth"] = paths.get("synth", 0) + 1
                 np.random.seed(3)
